@@ -1,17 +1,29 @@
 package cluster
 
 // C29 — Cluster cache invalidation is bounded and complete (engine cluster-net).
-// In-package harness mapped into internal/server/cluster. DESIGN.md §3 C29.
+// In-package harness mapped into internal/server/cluster. DESIGN.md §3 C29, §6.6.
 //
-// 1..5 simulated nodes in one process. Each node has its own caches state, NodeID and router
-// (with the real FlushCacheHandler behind a real route); the scheduler tags every task with
-// its node and swaps the package-level state on a node switch. All nodes share one SQLite
-// membership table written by the real upsertMember/RemoveMember. Between the nodes is the
-// simulator's transport (http.DefaultTransport seam): per message it can drop, delay (also
-// beyond the sender's 5 s timeout, so the flush is delivered although the sender saw an
-// error), duplicate, or refuse (node down). Operations: purge of a cache class on a node
-// (through the real caches.Purge, which fires the real OnPurge = BroadcastCacheFlush), member
-// removal / re-join, node down / up, forged flush messages with hop counts 0..max+1.
+// 1..5 simulated server processes in one process. Each process has its own caches state,
+// NodeID / ThisMember / systemDB handle and router (with the real FlushCacheHandler behind a
+// real route); the scheduler tags every task with its process and swaps the package-level
+// state on a switch. All processes share one SQLite membership file, which each of them opens
+// and joins through the REAL cluster.Initialize (with a generated cli.Context) and leaves
+// through the real cluster.Shutdown. Between the processes is the simulator's transport
+// (http.DefaultTransport seam), routing by port: per message it can drop, delay (also beyond
+// the sender's 5 s timeout, so the flush is delivered although the sender saw an error),
+// duplicate, refuse (nothing listens), or black-hole (partition).
+//
+// Operations: purge of a cache class on a node (real caches.Purge -> go OnPurge =
+// BroadcastCacheFlush); administrative member removal / re-activation (real RemoveMember /
+// upsertMember), either before the purges of a phase or concurrently with them; listener down
+// / up; CRASH (the process disappears: its volatile state is lost, its membership row stays
+// 'active' — what a killed server leaves behind); graceful STOP (real Shutdown marks the row
+// removed); START (a new process generation with a new instance id on the same port runs the
+// real Initialize; after a crash the dead generation's row is still there, so one port can be
+// behind two 'active' rows); partition of the cluster into two halves for a phase; forged
+// flush messages with hop counts 0..max+1.
+//
+// A "peer" in the oracle is a membership ROW that is active and is not the sender's own row.
 
 import (
 	"bytes"
@@ -24,12 +36,14 @@ import (
 	"os"
 	"path/filepath"
 	"sort"
+	"strconv"
 	"strings"
 	stdsync "sync"
 	"testing"
 	"time"
 
 	"github.com/tucats/ego/internal/caches"
+	"github.com/tucats/ego/internal/cli/cli"
 	"github.com/tucats/ego/internal/cli/settings"
 	"github.com/tucats/ego/internal/defs"
 	"github.com/tucats/ego/internal/router"
@@ -46,35 +60,74 @@ func (c29Engine) Name() string     { return "cluster-net" }
 func (c29Engine) Property() string { return "C29" }
 func (c29Engine) WarmupRuns() int  { return 2 }
 
-var c29Classes = []int{caches.AuthCache, caches.TokenCache, caches.DSNCache}
+// c29Pool: every predefined cache class and one user-defined class; each run works with three of them.
+var c29Pool = []int{caches.DSNCache, caches.AuthCache, caches.UserCache, caches.TokenCache, caches.BlacklistCache, caches.SchemaCache,
+	caches.SymbolTableCache, caches.DebugSessionCache, caches.WebAuthnChallengeCache, caches.OAuthCodeCache, caches.OAuthRefreshCache,
+	caches.OAuthJWTCache, 37}
 
-// Ops: purge [phase, node, class] ; remove [phase, node] ; join [phase, node] ; down [phase, node] ; up [phase, node] ;
-// forge [phase, node, class, hops]. Faults: drop/delay/dup [message index, seconds].
+// c29ClassesOf returns the three cache classes of a case (knobs class0..2 = indices into the pool;
+// absent = the three classes of the first version of this harness).
+func c29ClassesOf(c *simrun.Case) []int {
+	out := []int{caches.AuthCache, caches.TokenCache, caches.DSNCache}
+	for i := range out {
+		if k, ok := c.Knobs[fmt.Sprintf("class%d", i)]; ok {
+			out[i] = c29Pool[int(k)%len(c29Pool)]
+		}
+	}
+	return out
+}
+
+// Ops (first argument = phase): purge [ph, port, class] ; purgeall [ph, port] (caches.PurgeAll: one purge per class the node
+// holds; ignored when the node has another purge in the same phase, which would make "the classes it holds" ambiguous) ; remove / join / down / up / crash / stop / start [ph, port] ;
+// cremove / cjoin [ph, port] (concurrent with the purges of the phase) ; partition [ph, mask] ;
+// forge [ph, port, class, hops]. Faults: drop/delay/dup [message index, seconds].
 func (c29Engine) Generate(seed uint64, tier string) *simrun.Case {
 	r := sim.NewRand(seed)
 	c := &simrun.Case{Prop: "C29", Engine: "cluster-net", Seed: seed, SchedSeed: sim.Mix(seed, 29), Knobs: map[string]int64{}}
 	n := 1 + r.Intn(5)
 	c.Knobs["nodes"] = int64(n)
+	for i, k := range r.Perm(len(c29Pool))[:3] {
+		c.Knobs[fmt.Sprintf("class%d", i)] = int64(k)
+	}
 	c.Knobs["preempt_num"], c.Knobs["preempt_den"] = 1, []int64{1, 2, 5}[r.Intn(3)]
 	faulty := r.Chance(2, 3)
+	lifecycle := r.Chance(1, 2) // swarm: half of the runs have crash/stop/start and concurrent membership changes
 	nph := 2 + r.Intn(6)
 	for ph := int64(0); ph < int64(nph); ph++ {
-		k := 1 + r.Intn(2)
+		k := 1 + r.Intn(3)
 		for i := 0; i < k; i++ {
 			node := int64(1 + r.Intn(n))
-			switch x := r.Intn(100); {
-			case x < 62:
-				c.Ops = append(c.Ops, simrun.Op{K: "purge", A: []int64{ph, node, int64(r.Intn(len(c29Classes)))}})
-			case x < 70:
+			x := r.Intn(100)
+			if !lifecycle && x >= 100-24 {
+				x = r.Intn(62)
+			}
+			switch {
+			case x < 40:
+				c.Ops = append(c.Ops, simrun.Op{K: "purge", A: []int64{ph, node, int64(r.Intn(3))}})
+			case x < 46:
+				c.Ops = append(c.Ops, simrun.Op{K: "purgeall", A: []int64{ph, node}})
+			case x < 51:
 				c.Ops = append(c.Ops, simrun.Op{K: "remove", A: []int64{ph, node}})
-			case x < 77:
+			case x < 56:
 				c.Ops = append(c.Ops, simrun.Op{K: "join", A: []int64{ph, node}})
-			case x < 84:
+			case x < 61:
 				c.Ops = append(c.Ops, simrun.Op{K: "down", A: []int64{ph, node}})
-			case x < 91:
+			case x < 66:
 				c.Ops = append(c.Ops, simrun.Op{K: "up", A: []int64{ph, node}})
+			case x < 72:
+				c.Ops = append(c.Ops, simrun.Op{K: "forge", A: []int64{ph, node, int64(r.Intn(3)), []int64{0, 1, 4, 5, 9}[r.Intn(5)]}})
+			case x < 76:
+				c.Ops = append(c.Ops, simrun.Op{K: "partition", A: []int64{ph, int64(1 + r.Intn(1<<uint(n)))}})
+			case x < 82:
+				c.Ops = append(c.Ops, simrun.Op{K: "crash", A: []int64{ph, node}})
+			case x < 86:
+				c.Ops = append(c.Ops, simrun.Op{K: "stop", A: []int64{ph, node}})
+			case x < 93:
+				c.Ops = append(c.Ops, simrun.Op{K: "start", A: []int64{ph, node}})
+			case x < 97:
+				c.Ops = append(c.Ops, simrun.Op{K: "cremove", A: []int64{ph, node}})
 			default:
-				c.Ops = append(c.Ops, simrun.Op{K: "forge", A: []int64{ph, node, int64(r.Intn(len(c29Classes))), []int64{0, 1, 4, 5, 9}[r.Intn(5)]}})
+				c.Ops = append(c.Ops, simrun.Op{K: "cjoin", A: []int64{ph, node}})
 			}
 		}
 	}
@@ -88,36 +141,47 @@ func (c29Engine) Generate(seed uint64, tier string) *simrun.Case {
 	return c
 }
 
+// c29Node is one server process generation (index in c29Net.nodes = its simulator node number).
 type c29Node struct {
-	id     int
+	id     int // simulator node number
+	port   int
+	gen    int
 	nodeID string
 	member defs.ClusterMember
+	db     *stdsql.DB
 	c      *caches.VerifSimNode
 	rt     *router.Router
-	down   bool
+	down   bool // listener not reachable (the process lives)
+	dead   bool // the process is gone (crashed or stopped)
 }
 
 type c29Msg struct {
-	idx       int
-	from, to  int
-	sender    string
-	cache     int
-	hops      int
-	fate      string // delivered | dropped | refused | delivered-late | delivered-twice
-	forged    bool
-	purgeSeq  int // >0 if the sender has purged locally at some time (its latest purge)
-	phase     int
+	idx      int
+	from, to int // simulator node numbers (to = the live process behind the port, 0 if none)
+	toPort   int
+	sender   string
+	cache    int
+	hops     int
+	fate     string // delivered | dropped | refused | partitioned | delivered-twice
+	forged   bool
+	purgeSeq int // >0 if the sender has purged locally at some time (its latest purge)
+	phase    int
+	sentAt   time.Duration // since the start of the phase's concurrent part
+	doneAt   time.Duration // first delivery completed
+	faulted  bool
 }
 
 type c29Net struct {
-	mu     stdsync.Mutex
-	nodes  []*c29Node
-	faults map[int]simrun.Op
-	msgs   []*c29Msg
-	fired  map[string]int
+	mu        stdsync.Mutex
+	nodes     []*c29Node
+	live      map[int]*c29Node // port -> live process
+	faults    map[int]simrun.Op
+	msgs      []*c29Msg
+	fired     map[string]int
 	lastPurge map[int]int // node -> sequence number of its latest local purge (0 = never purged)
-	inbound map[string]int // task id -> >0 while that task is serving an inbound flush
-	phase   int
+	phase     int
+	phaseT0   time.Time
+	side      map[int]int // port -> partition side during this phase (absent = no partition)
 }
 
 func (n *c29Net) RoundTrip(req *http.Request) (*http.Response, error) {
@@ -125,38 +189,50 @@ func (n *c29Net) RoundTrip(req *http.Request) (*http.Response, error) {
 	body, _ := io.ReadAll(req.Body)
 	var fr defs.ClusterFlushRequest
 	json.Unmarshal(body, &fr)
-	host := req.URL.Hostname()
-	to := 0
-	fmt.Sscanf(host, "node%d", &to)
+	port, _ := strconv.Atoi(req.URL.Port())
 	n.mu.Lock()
-	m := &c29Msg{idx: len(n.msgs), to: to, sender: fr.SenderID, cache: fr.CacheID, hops: fr.Hops, forged: req.Header.Get("X-Forged") != ""}
+	m := &c29Msg{idx: len(n.msgs), toPort: port, sender: fr.SenderID, cache: fr.CacheID, hops: fr.Hops, forged: req.Header.Get("X-Forged") != ""}
 	for _, nd := range n.nodes {
-		if nd.nodeID == fr.SenderID {
+		if nd.nodeID == fr.SenderID && nd.nodeID != "" {
 			m.from = nd.id
 		}
 	}
 	m.purgeSeq = n.lastPurge[m.from]
 	m.phase = n.phase
+	m.sentAt = time.Since(n.phaseT0)
 	n.msgs = append(n.msgs, m)
 	f, hasFault := n.faults[m.idx]
-	var target *c29Node
-	if to >= 1 && to < len(n.nodes) {
-		target = n.nodes[to]
+	target := n.live[port]
+	cut := false
+	if m.from != 0 && len(n.side) > 0 && n.side[n.nodes[m.from].port] != n.side[port] {
+		cut = true
 	}
 	n.mu.Unlock()
-	if target == nil || target.down {
+	if cut {
+		// a partition: the packets vanish, the sender's own timeout ends the wait
+		m.fate, m.faulted = "partitioned", true
+		n.mu.Lock()
+		n.fired["partition"]++
+		n.mu.Unlock()
+		<-req.Context().Done()
+		sim.Yield("net-resume")
+		return nil, req.Context().Err()
+	}
+	if target == nil || target.down || target.dead {
 		m.fate = "refused"
 		n.mu.Lock()
 		n.fired["node-down-refused"]++
 		n.mu.Unlock()
-		return nil, fmt.Errorf("dial tcp %s: connection refused (simulated)", host)
+		return nil, fmt.Errorf("dial tcp %s: connection refused (simulated)", req.URL.Host)
 	}
+	m.to = target.id
 	latency := 20 * time.Millisecond
 	copies := 1
 	if hasFault && !m.forged {
 		n.mu.Lock()
 		n.fired[f.K]++
 		n.mu.Unlock()
+		m.faulted = true
 		switch f.K {
 		case "drop":
 			m.fate = "dropped"
@@ -179,18 +255,17 @@ func (n *c29Net) RoundTrip(req *http.Request) (*http.Response, error) {
 			sim.SetNode(target.id)
 			time.Sleep(latency + extra)
 			sim.Yield("net-deliver") // (after real blocking a task must pass the scheduler again so that its node's state is switched in)
+			if target.dead {
+				return // the process died while the message was on its way
+			}
 			r2 := httptest.NewRequest(req.Method, req.URL.Path, bytes.NewReader(body))
 			r2.Header = req.Header.Clone()
 			w := httptest.NewRecorder()
-			tid := sim.TaskID()
-			n.mu.Lock()
-			n.inbound[tid]++
-			n.mu.Unlock()
 			target.rt.ServeHTTP(w, r2)
 			n.mu.Lock()
-			n.inbound[tid]--
 			if m.fate == "" {
 				m.fate = "delivered"
+				m.doneAt = time.Since(n.phaseT0)
 			} else if m.fate == "delivered" {
 				m.fate = "delivered-twice"
 			}
@@ -211,6 +286,13 @@ func (n *c29Net) RoundTrip(req *http.Request) (*http.Response, error) {
 	}
 }
 
+// c29Row is the harness's model of one membership row.
+type c29Row struct {
+	nodeID string
+	port   int
+	active bool
+}
+
 func (c29Engine) Execute(t *testing.T, c *simrun.Case, keepLog bool) *simrun.Outcome {
 	out := &simrun.Outcome{}
 	dir, err := os.MkdirTemp(os.Getenv("TMPDIR"), "c29-")
@@ -220,219 +302,405 @@ func (c29Engine) Execute(t *testing.T, c *simrun.Case, keepLog bool) *simrun.Out
 	}
 	defer os.RemoveAll(dir)
 	nn := int(c.Knob("nodes", 1))
-	net := &c29Net{faults: map[int]simrun.Op{}, fired: map[string]int{}, lastPurge: map[int]int{}, inbound: map[string]int{}}
+	c29Classes := c29ClassesOf(c)
+	net := &c29Net{faults: map[int]simrun.Op{}, fired: map[string]int{}, lastPurge: map[int]int{}, live: map[int]*c29Node{}, side: map[int]int{}}
 	for _, f := range c.Faults {
 		net.faults[int(f.Arg(0))] = f
 	}
 	saved := http.DefaultTransport
-	defer func() { http.DefaultTransport = saved; caches.OnPurge = nil; ClusterName = ""; systemDB = nil }()
+	savedInstance := defs.InstanceID
+	defer func() {
+		http.DefaultTransport = saved
+		caches.OnPurge = nil
+		ClusterName, NodeID, systemDB, ThisMember = "", "", nil, defs.ClusterMember{}
+		defs.InstanceID = savedInstance
+	}()
 	var res sim.Result
 	var herr string
 	var hist []string
 	var bad []string
-	var mu stdsync.Mutex
+	dbPath := filepath.Join(dir, "system.db")
+	var handles []*stdsql.DB
 	p := simrun.Bubble(t, func() {
 		caches.VerifSimReset()
 		settings.SetDefault(defs.ServerTokenKeySetting, "verifsim-cluster-token-key")
-		ClusterName = "vs"
-		db, err := stdsql.Open("sqlite", filepath.Join(dir, "system.db"))
+		settings.SetDefault(defs.InsecureServerSetting, "true")
+		ClusterName, NodeID, systemDB, ThisMember = "", "", nil, defs.ClusterMember{}
+		// the harness's own handle on the membership file (administrative operations, model cross-check)
+		adm, err := stdsql.Open("sqlite", dbPath)
 		if err != nil {
 			herr = err.Error()
 			return
 		}
-		defer db.Close()
-		dbProvider = "sqlite"
-		if err := createClusterTable(db); err != nil {
-			herr = err.Error()
-			return
-		}
-		systemDB = db
-		// node 0 = the harness itself (no server)
-		net.nodes = []*c29Node{{id: 0, nodeID: "harness", c: caches.VerifSimNewNode()}}
-		for j := 1; j <= nn; j++ {
-			nd := &c29Node{id: j, nodeID: fmt.Sprintf("node-%d", j), c: caches.VerifSimNewNode()}
-			nd.member = defs.ClusterMember{Name: ClusterName, NodeID: nd.nodeID, Host: fmt.Sprintf("node%d", j), Port: 4000 + j, Scheme: "http",
-				JoinedAt: "2000-01-01T00:00:00Z", LastSeen: "2000-01-01T00:00:00Z", State: ActiveState}
-			nd.rt = router.NewRouter(nd.nodeID)
-			nd.rt.New("/services/cluster/flush", FlushCacheHandler, http.MethodPost)
-			if err := upsertMember(db, nd.member); err != nil {
-				herr = err.Error()
-				return
+		handles = append(handles, adm)
+		defer func() {
+			for _, h := range handles {
+				h.Close()
 			}
-			net.nodes = append(net.nodes, nd)
+		}()
+		// node 0 = the harness itself (no server)
+		net.nodes = []*c29Node{{id: 0, nodeID: "", c: caches.VerifSimNewNode()}}
+		rows := []*c29Row{} // model of the membership table, in creation order
+		rowOf := func(nodeID string) *c29Row {
+			for _, r := range rows {
+				if r.nodeID == nodeID {
+					return r
+				}
+			}
+			return nil
 		}
 		http.DefaultTransport = net
-		caches.OnPurge = BroadcastCacheFlush
-		NodeID, ThisMember = "harness", defs.ClusterMember{}
 		opt := c.SchedOptions(keepLog)
 		opt.OnSwitch = func(from, to int) {
 			if from < 0 || from >= len(net.nodes) || to < 0 || to >= len(net.nodes) {
 				return
 			}
-			caches.VerifSimSwitch(net.nodes[from].c, net.nodes[to].c)
-			NodeID, ThisMember = net.nodes[to].nodeID, net.nodes[to].member
+			f, tn := net.nodes[from], net.nodes[to]
+			caches.VerifSimSwitch(f.c, tn.c)
+			f.nodeID, f.member, f.db = NodeID, ThisMember, systemDB
+			NodeID, ThisMember, systemDB = tn.nodeID, tn.member, tn.db
 		}
-		active := map[int]bool{}
-		for j := 1; j <= nn; j++ {
-			active[j] = true
+		gens := map[int]int{}
+		// start runs the REAL join code for a new process generation on the port; called on the root task.
+		start := func(port int) string {
+			gens[port]++
+			nd := &c29Node{id: len(net.nodes), port: port, gen: gens[port], c: caches.VerifSimNewNode()}
+			net.nodes = append(net.nodes, nd)
+			sim.SetNode(nd.id)
+			defs.InstanceID = fmt.Sprintf("node-%d-g%d", port-4000, nd.gen)
+			ctx := &cli.Context{Grammar: []cli.Option{
+				{LongName: "cluster", OptionType: cli.StringType, Found: true, Value: "vs"},
+				{LongName: "users", OptionType: cli.StringType, Found: true, Value: "sqlite://" + dbPath},
+				{LongName: "port", OptionType: cli.IntType, Found: true, Value: port},
+				{LongName: "not-secure", OptionType: cli.BooleanType, Found: true, Value: true},
+			}}
+			// (time moves between process starts, as it does in reality; joined_at orders the peer list)
+			time.Sleep(time.Second)
+			sim.Yield("start") // (after real blocking a task passes the scheduler again so that its node's state is switched in)
+			if err := Initialize(ctx); err != nil {
+				herr = "cluster.Initialize: " + err.Error()
+			}
+			if systemDB != nil {
+				handles = append(handles, systemDB)
+			}
+			nd.nodeID, nd.member, nd.db = NodeID, ThisMember, systemDB
+			nd.rt = router.NewRouter(defs.InstanceID)
+			nd.rt.New("/services/cluster/flush", FlushCacheHandler, http.MethodPost)
+			me := defs.InstanceID
+			sim.SetNode(0)
+			net.mu.Lock()
+			net.live[port] = nd
+			net.mu.Unlock()
+			rows = append(rows, &c29Row{nodeID: me, port: port, active: true})
+			return me
 		}
 		purgeSeq := 0
 		type purgeRec struct {
 			seq, node, class int
-			peers            []int // active, other nodes at purge time
 			canary           string
 		}
 		var purges []purgeRec
 		res = sim.Run(opt, func() {
+			for j := 1; j <= nn; j++ {
+				start(4000 + j)
+			}
+			if herr != "" {
+				return
+			}
 			maxPh := int64(0)
 			for _, op := range c.Ops {
 				if op.Arg(0) > maxPh {
 					maxPh = op.Arg(0)
 				}
 			}
+			portOf := func(op simrun.Op) int {
+				node := int(op.Arg(1))
+				if node < 1 || node > nn {
+					node = 1
+				}
+				return 4000 + node
+			}
 			for ph := int64(0); ph <= maxPh; ph++ {
-				// canaries: every node gets a fresh entry in every class before the phase
-				canary := fmt.Sprintf("canary-%d", ph)
 				net.mu.Lock()
 				net.phase = int(ph)
+				net.side = map[int]int{}
 				net.mu.Unlock()
-				for j := 1; j <= nn; j++ {
-					sim.SetNode(j)
+				// 1. lifecycle, membership and availability changes that precede the purges of this phase
+				for _, op := range c.Ops {
+					if op.Arg(0) != ph {
+						continue
+					}
+					port := portOf(op)
+					nd := net.live[port]
+					switch op.K {
+					case "remove":
+						if nd != nil {
+							RemoveMember(adm, nd.nodeID)
+							rowOf(nd.nodeID).active = false
+							hist = append(hist, fmt.Sprintf("remove %s", nd.nodeID))
+						}
+					case "join":
+						if nd != nil {
+							upsertMember(adm, nd.member)
+							rowOf(nd.nodeID).active = true
+							hist = append(hist, fmt.Sprintf("join %s", nd.nodeID))
+						}
+					case "down":
+						if nd != nil {
+							nd.down = true
+							hist = append(hist, fmt.Sprintf("down %s", nd.nodeID))
+						}
+					case "up":
+						if nd != nil {
+							nd.down = false
+							hist = append(hist, fmt.Sprintf("up %s", nd.nodeID))
+						}
+					case "crash", "stop":
+						if nd == nil {
+							continue
+						}
+						sim.SetNode(nd.id)
+						if op.K == "stop" {
+							Shutdown() // the real graceful leave: marks this node's row removed
+							rowOf(nd.nodeID).active = false
+						}
+						caches.VerifSimShutdown() // (lets the dead process's sweeper goroutines end; its state is never looked at again)
+						sim.SetNode(0)
+						nd.dead = true
+						net.mu.Lock()
+						delete(net.live, port)
+						net.mu.Unlock()
+						hist = append(hist, fmt.Sprintf("%s %s", op.K, nd.nodeID))
+						out.Probe("lifecycle_"+op.K, 1)
+					case "start":
+						if nd == nil {
+							me := start(port)
+							hist = append(hist, fmt.Sprintf("start %s", me))
+							out.Probe("lifecycle_start", 1)
+						}
+					case "partition":
+						mask := op.Arg(1)
+						net.mu.Lock()
+						for j := 1; j <= nn; j++ {
+							net.side[4000+j] = int(mask>>uint(j-1)) & 1
+						}
+						net.mu.Unlock()
+						hist = append(hist, fmt.Sprintf("partition mask %b", mask))
+					}
+				}
+				if herr != "" {
+					return
+				}
+				// canaries: every live process gets a fresh entry in every class before the purges
+				canary := fmt.Sprintf("canary-%d", ph)
+				for _, nd := range net.nodes[1:] {
+					if nd.dead {
+						continue
+					}
+					sim.SetNode(nd.id)
 					for _, cl := range c29Classes {
 						caches.Add(cl, canary, int(ph))
 					}
 				}
 				sim.SetNode(0)
-				var wg sync.WaitGroup
-				for _, op := range c.Ops {
-					if op.Arg(0) != ph {
-						continue
-					}
-					op := op
-					node := int(op.Arg(1))
-					if node < 1 || node > nn {
-						node = 1
-					}
-					switch op.K {
-					case "remove":
-						RemoveMember(db, net.nodes[node].nodeID)
-						active[node] = false
-						hist = append(hist, fmt.Sprintf("remove node%d", node))
-					case "join":
-						upsertMember(db, net.nodes[node].member)
-						active[node] = true
-						hist = append(hist, fmt.Sprintf("join node%d", node))
-					case "down":
-						net.nodes[node].down = true
-						hist = append(hist, fmt.Sprintf("down node%d", node))
-					case "up":
-						net.nodes[node].down = false
-						hist = append(hist, fmt.Sprintf("up node%d", node))
-					}
+				// the model's rows at the start of the concurrent part, and the rows touched during it
+				activeAtStart := map[string]bool{}
+				for _, r := range rows {
+					activeAtStart[r.nodeID] = r.active
 				}
-				// membership and availability are now fixed for this phase; purges and forged messages run concurrently
+				touched := map[string]bool{}
+				conflicting := map[string]bool{}
+				net.mu.Lock()
+				net.phaseT0 = time.Now()
+				net.mu.Unlock()
+				// 2. purges, forged messages and concurrent membership changes
+				var wg sync.WaitGroup
+				npurge := map[[2]int]int{} // (node, class) -> purges in this phase
 				for _, op := range c.Ops {
 					if op.Arg(0) != ph {
 						continue
 					}
 					op := op
-					node := int(op.Arg(1))
-					if node < 1 || node > nn {
-						node = 1
-					}
+					port := portOf(op)
+					nd := net.live[port]
 					switch op.K {
 					case "purge":
-						class := c29Classes[int(op.Arg(2))%len(c29Classes)]
+						if nd == nil {
+							continue
+						}
+						class := c29Classes[int(op.Arg(2))%3]
 						purgeSeq++
-						pr := purgeRec{seq: purgeSeq, node: node, class: class, canary: canary}
-						for j := 1; j <= nn; j++ {
-							if j != node && active[j] {
-								pr.peers = append(pr.peers, j)
+						pr := purgeRec{seq: purgeSeq, node: nd.id, class: class, canary: canary}
+						purges = append(purges, pr)
+						npurge[[2]int{nd.id, class}]++
+						hist = append(hist, fmt.Sprintf("purge#%d class %d on %s", pr.seq, class, nd.nodeID))
+						wg.Add(1)
+						sim.Go(func() {
+							defer wg.Done()
+							sim.SetNode(pr.node)
+							net.mu.Lock()
+							net.lastPurge[pr.node] = pr.seq
+							net.mu.Unlock()
+							caches.Purge(class)
+						})
+					case "purgeall":
+						if nd == nil {
+							continue
+						}
+						npurgeOps := 0
+						for _, o2 := range c.Ops {
+							if o2.Arg(0) == ph && (o2.K == "purge" || o2.K == "purgeall") && portOf(o2) == port {
+								npurgeOps++
 							}
 						}
-						purges = append(purges, pr)
-						hist = append(hist, fmt.Sprintf("purge#%d class %d on node%d (active peers %v)", pr.seq, class, node, pr.peers))
+						if npurgeOps != 1 {
+							continue
+						}
+						node := nd.id
+						for _, class := range c29Classes {
+							purgeSeq++
+							purges = append(purges, purgeRec{seq: purgeSeq, node: node, class: class, canary: canary})
+							npurge[[2]int{node, class}]++
+						}
+						seq := purgeSeq
+						hist = append(hist, fmt.Sprintf("purge-all on %s", nd.nodeID))
+						out.Probe("purge_all", 1)
 						wg.Add(1)
 						sim.Go(func() {
 							defer wg.Done()
 							sim.SetNode(node)
 							net.mu.Lock()
-							net.lastPurge[node] = pr.seq
+							net.lastPurge[node] = seq
 							net.mu.Unlock()
-							caches.Purge(class)
+							caches.PurgeAll()
+						})
+					case "cremove", "cjoin":
+						if nd == nil {
+							continue
+						}
+						if touched[nd.nodeID] && rowOf(nd.nodeID).active != (op.K == "cjoin") {
+							conflicting[nd.nodeID] = true // removed and re-activated concurrently: whichever lands last wins
+						}
+						touched[nd.nodeID] = true
+						rowOf(nd.nodeID).active = op.K == "cjoin"
+						member := nd.member
+						hist = append(hist, fmt.Sprintf("%s %s (concurrent)", op.K, nd.nodeID))
+						out.Probe("concurrent_membership_change", 1)
+						wg.Add(1)
+						sim.Go(func() {
+							defer wg.Done()
+							if op.K == "cremove" {
+								RemoveMember(adm, member.NodeID)
+							} else {
+								upsertMember(adm, member)
+							}
 						})
 					case "forge":
-						class := c29Classes[int(op.Arg(2))%len(c29Classes)]
+						class := c29Classes[int(op.Arg(2))%3]
 						hops := int(op.Arg(3))
-						hist = append(hist, fmt.Sprintf("forged flush class %d hops %d to node%d", class, hops, node))
+						hist = append(hist, fmt.Sprintf("forged flush class %d hops %d to port %d", class, hops, port))
 						wg.Add(1)
 						sim.Go(func() {
 							defer wg.Done()
 							body, _ := json.Marshal(defs.ClusterFlushRequest{CacheID: class, SenderID: "forger", Hops: hops})
-							req, _ := http.NewRequest(http.MethodPost, fmt.Sprintf("http://node%d:%d/services/cluster/flush", node, 4000+node), bytes.NewReader(body))
+							req, _ := http.NewRequest(http.MethodPost, fmt.Sprintf("http://host.local:%d/services/cluster/flush", port), bytes.NewReader(body))
 							req.Header.Set("Authorization", ClusterAuthHeader())
 							req.Header.Set("X-Forged", "1")
 							cl := &http.Client{Timeout: 5 * time.Second}
-							before := false
 							resp, err := cl.Do(req)
-							_ = before
 							if err == nil {
 								resp.Body.Close()
 							}
-							// what happened to the canary on that node is judged at quiescence
-							mu.Lock()
-							mu.Unlock()
 						})
 					}
 				}
 				wg.Wait()
 				// quiescence: all messages (also the delayed ones) are delivered well within this time
-				time.Sleep(40 * time.Second)
-				// judge the phase
+				time.Sleep(60 * time.Second)
+				// 3. judge the phase
 				sim.SetNode(0)
 				net.mu.Lock()
 				msgs := append([]*c29Msg{}, net.msgs...)
-				net.mu.Unlock()
-				type grp struct{ node, class int }
-				groups := map[grp][]purgeRec{}
-				for _, pr := range purges {
-					if pr.canary == canary {
-						groups[grp{pr.node, pr.class}] = append(groups[grp{pr.node, pr.class}], pr)
+				anyFault := false
+				for _, m := range msgs {
+					if m.phase == int(ph) && (m.faulted || m.fate == "refused") {
+						anyFault = true
 					}
 				}
-				var gkeys []grp
-				for g := range groups {
+				net.mu.Unlock()
+				var gkeys [][2]int
+				for g := range npurge {
 					gkeys = append(gkeys, g)
 				}
-				sort.Slice(gkeys, func(a, b int) bool { return gkeys[a].node*100+gkeys[a].class < gkeys[b].node*100+gkeys[b].class })
+				sort.Slice(gkeys, func(a, b int) bool { return gkeys[a][0]*100+gkeys[a][1] < gkeys[b][0]*100+gkeys[b][1] })
+				nrows := 0
+				for _, r := range rows {
+					if activeAtStart[r.nodeID] || touched[r.nodeID] {
+						nrows++
+					}
+				}
 				for _, g := range gkeys {
-					prs := groups[g]
-					for _, j := range prs[0].peers { // (membership is fixed within a phase)
-						sent, delivered := 0, 0
-						for _, m := range msgs {
-							if !m.forged && m.phase == int(ph) && m.from == g.node && m.to == j && m.cache == g.class {
-								sent++
-								if strings.HasPrefix(m.fate, "delivered") {
-									delivered++
+					k := npurge[g]
+					sender := net.nodes[g[0]]
+					// expected messages per destination port: one per purge per active row that is not the sender's own
+					minTo, maxTo := map[int]int{}, map[int]int{}
+					for _, r := range rows {
+						if r.nodeID == sender.nodeID {
+							continue
+						}
+						switch {
+						case touched[r.nodeID]: // changed while the purges ran: may or may not have been seen
+							maxTo[r.port] += k
+						case activeAtStart[r.nodeID]:
+							minTo[r.port] += k
+							maxTo[r.port] += k
+						}
+					}
+					sentTo, deliveredTo := map[int]int{}, map[int]int{}
+					for _, m := range msgs {
+						if !m.forged && m.phase == int(ph) && m.from == g[0] && m.cache == g[1] {
+							sentTo[m.toPort]++
+							if strings.HasPrefix(m.fate, "delivered") {
+								deliveredTo[m.toPort]++
+							}
+							// bounded progress of the broadcast itself: peers are notified one after the other, each
+							// attempt ends after the 5 s client timeout at the latest
+							if lim := time.Duration(nrows)*5*time.Second + time.Second; m.sentAt > lim {
+								bad = append(bad, fmt.Sprintf("broadcast-too-slow: message %d (class %d from %s to port %d) left the sender %v after the purge; with %d membership rows every peer must have been tried within %v", m.idx, m.cache, sender.nodeID, m.toPort, m.sentAt, nrows, lim))
+							}
+						}
+					}
+					for j := 1; j <= nn; j++ {
+						port := 4000 + j
+						switch {
+						case sentTo[port] < minTo[port]:
+							bad = append(bad, fmt.Sprintf("peer-not-notified: %d purge(s) of class %d on %s in phase %d, but only %d flush message(s) were sent to port %d, which is behind %d active membership row(s) other than the sender's", k, g[1], sender.nodeID, ph, sentTo[port], port, minTo[port]/k))
+						case sentTo[port] > maxTo[port]:
+							bad = append(bad, fmt.Sprintf("too-many-messages: %d purge(s) of class %d on %s in phase %d caused %d flush messages to port %d (at most %d active peer rows there)", k, g[1], sender.nodeID, ph, sentTo[port], port, maxTo[port]/k))
+						}
+						if deliveredTo[port] > 0 {
+							out.Probe("flushes_delivered_and_checked", 1)
+							if tn := net.live[port]; tn != nil {
+								sim.SetNode(tn.id)
+								has := caches.VerifSimHas(g[1], canary)
+								sim.SetNode(0)
+								if has {
+									bad = append(bad, fmt.Sprintf("peer-kept-cache: purge of class %d on %s: a flush was delivered to the peer on port %d but the entry cached there before is still present", g[1], sender.nodeID, port))
 								}
 							}
 						}
-						sim.SetNode(j)
-						has := caches.VerifSimHas(g.class, canary)
-						sim.SetNode(0)
-						mu.Lock()
-						switch {
-						case sent < len(prs):
-							bad = append(bad, fmt.Sprintf("peer-not-notified: %d purge(s) of class %d on node%d in phase %d, but only %d flush message(s) were sent to active peer node%d", len(prs), g.class, g.node, ph, sent, j))
-						case sent > len(prs):
-							bad = append(bad, fmt.Sprintf("too-many-messages: %d purge(s) of class %d on node%d in phase %d caused %d flush messages to peer node%d", len(prs), g.class, g.node, ph, sent, j))
-						case delivered > 0 && has:
-							bad = append(bad, fmt.Sprintf("peer-kept-cache: purge of class %d on node%d: a flush was delivered to active peer node%d but the entry cached there before is still present", g.class, g.node, j))
+						// bounded liveness once faults stop: in a phase without any fault, refusal or partition every
+						// notification is delivered within a second (20 ms per hop, peers in sequence)
+						if !anyFault && len(touched) == 0 && minTo[port] > 0 {
+							out.Probe("fault_free_phase_deliveries_checked", 1)
+							for _, m := range msgs {
+								if !m.forged && m.phase == int(ph) && m.from == g[0] && m.cache == g[1] && m.toPort == port {
+									if m.fate != "delivered" || m.doneAt > time.Second {
+										bad = append(bad, fmt.Sprintf("no-progress-without-faults: phase %d has no message fault, yet message %d (class %d, %s -> port %d) has fate %q after %v", ph, m.idx, m.cache, sender.nodeID, port, m.fate, m.doneAt))
+									}
+								}
+							}
 						}
-						if delivered > 0 {
-							out.Probe("flushes_delivered_and_checked", 1)
-						}
-						mu.Unlock()
 					}
 				}
 				// forged flushes above the hop limit must leave the cache alone
@@ -440,67 +708,75 @@ func (c29Engine) Execute(t *testing.T, c *simrun.Case, keepLog bool) *simrun.Out
 					if op.Arg(0) != ph || op.K != "forge" {
 						continue
 					}
-					node := int(op.Arg(1))
-					if node < 1 || node > nn {
-						node = 1
-					}
-					class := c29Classes[int(op.Arg(2))%len(c29Classes)]
+					port := portOf(op)
+					class := c29Classes[int(op.Arg(2))%3]
 					if op.Arg(3) <= maxFlushHops {
+						continue
+					}
+					tn := net.live[port]
+					if tn == nil || tn.down {
 						continue
 					}
 					// (only meaningful if nothing else legitimately flushed that class on that node in this phase)
 					legit := false
 					for _, m := range msgs {
-						if m.to == node && m.cache == class && !(m.forged && m.hops > maxFlushHops) && strings.HasPrefix(m.fate, "delivered") {
+						if m.phase == int(ph) && m.toPort == port && m.cache == class && !(m.forged && m.hops > maxFlushHops) && strings.HasPrefix(m.fate, "delivered") {
 							legit = true
 						}
 					}
-					for _, pr := range purges {
-						if pr.canary == canary && pr.node == node && pr.class == class {
-							legit = true
-						}
-					}
-					if legit || net.nodes[node].down {
+					if npurge[[2]int{tn.id, class}] > 0 || legit {
 						continue
 					}
-					sim.SetNode(node)
+					sim.SetNode(tn.id)
 					has := caches.VerifSimHas(class, canary)
 					sim.SetNode(0)
 					out.Probe("over_limit_forgeries_checked", 1)
 					if !has {
-						bad = append(bad, fmt.Sprintf("hop-limit-ignored: a flush with hops=%d (limit %d) made node%d discard cache class %d", op.Arg(3), maxFlushHops, node, class))
+						bad = append(bad, fmt.Sprintf("hop-limit-ignored: a flush with hops=%d (limit %d) made the node on port %d discard cache class %d", op.Arg(3), maxFlushHops, port, class))
+					}
+				}
+				// the membership table must be what the lifecycle and membership operations so far amount to
+				if dbrows, err := ListMembers(adm, "vs"); err == nil {
+					got := map[string]string{}
+					for _, m := range dbrows {
+						got[m.NodeID] = fmt.Sprintf("%s port %d", m.State, m.Port)
+						if conflicting[m.NodeID] {
+							rowOf(m.NodeID).active = m.State == ActiveState
+						}
+					}
+					for _, r := range rows {
+						want := "removed"
+						if r.active {
+							want = ActiveState
+						}
+						want = fmt.Sprintf("%s port %d", want, r.port)
+						if got[r.nodeID] != want {
+							bad = append(bad, fmt.Sprintf("membership-wrong: after phase %d the membership row of %s is %q, the operations so far make it %q", ph, r.nodeID, got[r.nodeID], want))
+						}
+					}
+					if len(dbrows) != len(rows) {
+						bad = append(bad, fmt.Sprintf("membership-wrong: %d rows in the membership table, %d processes ever joined", len(dbrows), len(rows)))
 					}
 				}
 			}
 			// let sweepers end
-			for j := 0; j <= nn; j++ {
-				sim.SetNode(j)
+			for _, nd := range net.nodes {
+				sim.SetNode(nd.id)
 				caches.VerifSimShutdown()
 			}
 			sim.SetNode(0)
 			time.Sleep(61 * time.Second)
 		})
 		// message-count invariants over the whole run
-		budget := map[int]int{}
-		for _, pr := range purges {
-			budget[pr.node] += len(pr.peers)
-		}
-		sent := map[int]int{}
 		for _, m := range net.msgs {
 			if m.forged {
 				continue
 			}
-			sent[m.from]++
 			if m.hops != originHopCount {
-				bad = append(bad, fmt.Sprintf("rebroadcast-hops: message %d from node%d to node%d carries hops=%d (an origin broadcast carries %d)", m.idx, m.from, m.to, m.hops, originHopCount))
+				bad = append(bad, fmt.Sprintf("rebroadcast-hops: message %d from node%d to port %d carries hops=%d (an origin broadcast carries %d)", m.idx, m.from, m.toPort, m.hops, originHopCount))
 			}
 			if m.purgeSeq == 0 {
-				bad = append(bad, fmt.Sprintf("rebroadcast: node%d sent a flush (message %d to node%d) although it never purged locally", m.from, m.idx, m.to))
-			}
-		}
-		for j, n := range sent {
-			if n > budget[j] {
-				bad = append(bad, fmt.Sprintf("too-many-messages: node%d sent %d flush messages; its local purges allow at most %d (sum of active peers at each purge)", j, n, budget[j]))
+				bad = append(bad, fmt.Sprintf("rebroadcast: %q sent a flush (message %d to port %d) although it never purged locally", m.sender, m.idx, m.toPort))
 			}
 		}
 		out.Probe("messages", len(net.msgs))
@@ -522,7 +798,7 @@ func (c29Engine) Execute(t *testing.T, c *simrun.Case, keepLog bool) *simrun.Out
 	}
 	var ms []string
 	for _, m := range net.msgs {
-		ms = append(ms, fmt.Sprintf("m%d node%d->node%d class %d hops %d %s", m.idx, m.from, m.to, m.cache, m.hops, m.fate))
+		ms = append(ms, fmt.Sprintf("m%d %s->port %d class %d hops %d %s", m.idx, m.sender, m.toPort, m.cache, m.hops, m.fate))
 	}
 	out.Nontrivial = len(net.msgs) > 0
 	out.Hash = simrun.HashStrings(res.Hash, append(hist, ms...)...)
